@@ -64,14 +64,31 @@ theorem dead_not_live (H : Bytes → Bytes) (t0 t : Node) (b0 : Trie) (v : Nat) 
 
 /-- **Dead set ∩ live set = ∅ — any round of a block trie** (own operations and merged, possibly nested, transactions:
     `TrieRun`); discipline proved, key injectivity on the run's references assumed. -/
-theorem dead_not_live_run (H : Bytes → Bytes) (U : Ref → Prop) (t0 t : Node) (b0 : Trie) (v : Nat) (es : List Event)
+theorem dead_not_live_run (H : Bytes → Bytes) (U : Ref → Prop) (Vok : Nat → Prop) (t0 t : Node) (b0 : Trie) (es : List Event)
     (hfresh : b0.cc.changes = [] ∧ b0.cc.deletes = []) (hw : WF t0) (hUt : ∀ r ∈ refs t0 [], U r)
-    (hrun : TrieRun H U v t0 es t) (hU : KeyInjOn H U) :
+    (hrun : TrieRun H U Vok t0 es t) (hU : KeyInjOn H U) :
     ∀ x ∈ deadKeys H (b0.applyEvents H es), x ∉ nodeKeys H t := by
   obtain ⟨hd, hc, _, _, _⟩ := trieRun_discipline H U hU hrun hw hUt (fun x => x ∈ (refs t0 []).map (Ref.key H))
     (fun r hr => List.mem_map.mpr ⟨r, hr, rfl⟩)
     (by intro x hx; obtain ⟨r, hr, hk⟩ := List.mem_map.mp hx; exact ⟨r, hUt r hr, hk⟩)
   exact dead_not_live_partial H t0 t b0 es hfresh hd hc
+
+/-- non-vacuity of `dead_not_live_run`: the block trie merges one transaction that inserted a key -/
+example : ∃ es, TrieRun id (fun r => r = ⟨[], .leaf 1 [3] [65]⟩) (fun v => v = 1) .empty es (.leaf 1 [3] [65]) ∧
+    ∀ x ∈ deadKeys id ((Trie.open [] .empty 1).applyEvents id es), x ∉ nodeKeys id (.leaf 1 [3] [65]) := by
+  have hC : RoundEvents 1 .empty ((insertE 1 [65] .empty [] [3]).2 ++ []) (.leaf 1 [3] [65]) := by
+    apply RoundEvents.ins _ _ _ _ _ (by simp)
+    have h1 : (insertE 1 [65] .empty [] [3]).1 = .leaf 1 [3] [65] := by simp [insertE]
+    rw [h1]; exact RoundEvents.nil _
+  have hchild : TrieRun id (fun r => r = ⟨[], .leaf 1 [3] [65]⟩) (fun v => v = 1) .empty
+      (((insertE 1 [65] .empty [] [3]).2 ++ []) ++ []) (.leaf 1 [3] [65]) :=
+    TrieRun.own 1 _ _ _ _ _ rfl hC (by intro r hr; simpa [insertE, eventRefs] using hr) (TrieRun.nil _)
+  have hrun := TrieRun.merge (H := id) (U := fun r => r = ⟨[], .leaf 1 [3] [65]⟩) (Vok := fun v => v = 1) .empty (.leaf 1 [3] [65])
+    (.leaf 1 [3] [65]) (Trie.open [] .empty 1) _ [] ⟨rfl, rfl⟩ hchild (by decide) (TrieRun.nil _)
+  refine ⟨_, hrun, ?_⟩
+  apply dead_not_live_run id _ _ .empty _ (Trie.open [] .empty 1) _ ⟨rfl, rfl⟩ (Or.inl rfl) (by intro r h; simp [refs] at h) hrun
+  intro a b ha hb _
+  rw [ha, hb]
 
 /-- non-vacuity of `dead_not_live`: the round `ins [3] := 66` on the one-leaf tree of version 1, at version 2 -/
 example : ∀ x ∈ deadKeys id ((Trie.open [] (.leaf 1 [3] [65]) 2).applyEvents id ((insertE 2 [66] (.leaf 1 [3] [65]) [] [3]).2 ++ [])),
